@@ -61,6 +61,7 @@ func checkC14(w *World, r *Report) {
 	r.rule("C14.kinds", "the equality dispatch has a dedicated case for every value struct of package types that has a Val field (Symbol, List, Vector, HashMap, Set), and none of these cases compares whole structs with ==")
 	r.rule("C14.gate", "before the dispatch the function returns false unless the dynamic types are identical or both operands are sequential; the sequential predicate accepts exactly the list and vector types")
 	equalsEntryRule(w, r, "C14.entry")
+	headerRebindLint(w, r, "C14.lisp-rebind", "= is the builtin whose Go implementation (Equal_Q) the other rules examine; a lisp wrapper around it decides equality by its own tests", "=")
 	r.rule("C14.stateless", "Equal_Q and the functions of its package it is built from (the sequence test, the slice accessor) keep no state: they assign no package-level variable, so an answer depends on the two operands only and concurrent comparisons cannot disturb each other")
 	noGlobalWritesRule(w, r, "C14.stateless", "equality", []*ssa.Function{w.Fn("types", "Equal_Q"), w.Fn("types", "Sequential_Q"), w.Fn("types", "GetSlice")})
 	// = reaches Equal_Q through the binder's adapters: whatever those keep between calls is shared by concurrent comparisons
@@ -520,6 +521,7 @@ func checkC13(w *World, r *Report) {
 	applyArgsRule(w, r, e, "C13.apply-args")
 	nilBranchRule(w, r, e, "C13.nil-branch")
 	countArithRule(w, r, e, "C13.count-arith")
+	siblingDomainRule(w, r, "C13.sibling-domain")
 	loopErrorRule(w, r, "C13.loop-errors", func(fn *ssa.Function) bool {
 		return strings.HasPrefix(fnPkgPath(fn), modPath+"/lib/") || fnPkgPath(fn) == modPath+"/types"
 	})
@@ -551,6 +553,16 @@ func checkC13(w *World, r *Report) {
 				}
 			}
 			r.check((kind == "List" || kind == "Vector") && strings.HasSuffix(cs.path, "."+kind+").Val"), "C13.seq-accessor", gs, "elements handed out for "+nz(kind, "an unknown kind"), gs.Pos(), "the Val slice of a list or vector", "the sequence accessor succeeds for a value that is neither a list nor a vector ("+nz(kind, "kind not established")+", path "+cs.path+"): builtins that must fail on sets, maps or strings now treat them as sequences, with Go's random map order")
+		}
+		// ... and it never answers "no elements, no error": nil (like a number or a string) is not a sequence
+		for _, rt := range errorReturns(gs) {
+			ret := rt[0].(*ssa.Return)
+			v, _ := rt[1].(ssa.Value)
+			ev, _ := rt[2].(ssa.Value)
+			if v != nil && isNilConst(v) && ev != nil && isNilConst(ev) {
+				nacc++
+				r.bad("C13.seq-accessor", gs, "success without elements", ret.Pos(), "the sequence accessor answers (nil, nil) on some path: a value that is neither a list nor a vector (nil, say) passes for the empty sequence, so let, apply, map, cons, concat and nth accept it instead of raising the error their definition prescribes")
+			}
 		}
 		if len(cases) == 0 {
 			r.bad("C13.seq-accessor", gs, "shape of the sequence accessor", gs.Pos(), "the accessor no longer returns, per dynamic type of its argument, a field of that argument (it delegates to a conversion that may accept more kinds than lists and vectors): the kinds it succeeds for cannot be established")
@@ -1216,6 +1228,7 @@ func checkC17(w *World, r *Report) {
 	rethrowLint(w, r, "C17.lisp-rethrow")
 	// the rows the scanner counts are the rows of the text the caller passed
 	textIntactRule(w, r, "C17.text-intact")
+	moduleAsGivenRule(w, r, e, "C17.module")
 	if rf := w.Fn("reader", "read_form"); rf != nil {
 		nm, okAll := 0, true
 		for _, fn := range w.pkgFuncs("reader") {
@@ -1274,41 +1287,90 @@ func checkC17(w *World, r *Report) {
 		// inside the evaluation loop an error is positioned at the form of the current iteration
 		r.rule("C17.current-form", "every error EVAL positions inside its loop takes the position from a value computed in the current iteration (the form being evaluated or a part of it), never from the form EVAL was entered with or from anything computed before the loop: after a tail call that form belongs to the caller")
 		ncf := 0
+		// EVAL itself, and the function literals of EVAL that are only called, and only inside the loop
+		// (a local `fail := func(err error) … { return nil, NewLispError(err, ast) }`): the variables such a
+		// literal reads are EVAL's own, read at the time of the call
+		type cfSite struct {
+			fn     *ssa.Function
+			inLoop func(*ssa.BasicBlock) bool
+		}
+		cfFns := []cfSite{{m.EVAL, func(b *ssa.BasicBlock) bool { return m.header.Dominates(b) }}}
+		closureCalls := map[*ssa.Function][]*ssa.Call{}
 		for _, b := range m.EVAL.Blocks {
-			if !m.header.Dominates(b) {
-				continue
-			}
 			for _, in := range b.Instrs {
-				c, ok := in.(*ssa.Call)
-				if !ok || c.Call.StaticCallee() == nil || c.Call.StaticCallee().Name() != "NewLispError" || len(c.Call.Args) != 2 {
-					continue
-				}
-				ncf++
-				carrier := unboxed(c.Call.Args[1])
-				stale := ""
-				switch x := carrier.(type) {
-				case *ssa.Const:
-				case *ssa.Parameter:
-					stale = "the form EVAL was entered with"
-				case ssa.Instruction:
-					if x.Block() != nil && !m.header.Dominates(x.Block()) {
-						stale = "a value computed before the loop (" + describeVal(e, carrier, 0) + ")"
+				if c, ok := in.(*ssa.Call); ok {
+					if callee := c.Call.StaticCallee(); callee != nil && callee.Parent() == m.EVAL && calledWhereDefined(c) {
+						closureCalls[callee] = append(closureCalls[callee], c)
 					}
-					if ld, ok := carrier.(*ssa.UnOp); ok && ld.Op == token.MUL {
-						// a variable: every assignment must happen inside the loop
-						if cell := cellOf(ld.X); cell != nil {
-							for _, st := range e.storesTo(cell) {
-								if st.Parent() == m.EVAL && !m.header.Dominates(st.Block()) {
-									if p, isP := st.Val.(*ssa.Parameter); isP && p == m.astParam {
-										continue // the form variable itself is loop-carried
-									}
-									stale = "a variable assigned before the loop"
+				}
+			}
+		}
+		for cl, calls := range closureCalls {
+			all := true
+			for _, c := range calls {
+				all = all && m.header.Dominates(c.Block())
+			}
+			if all {
+				cfFns = append(cfFns, cfSite{cl, func(*ssa.BasicBlock) bool { return true }})
+			}
+		}
+		var staleness func(carrier ssa.Value, depth int) string
+		staleness = func(carrier ssa.Value, depth int) string {
+			stale := ""
+			switch x := carrier.(type) {
+			case *ssa.Const:
+			case *ssa.Parameter:
+				if x.Parent() != m.EVAL && depth < 3 {
+					// a parameter of a function literal: what its calls pass
+					for _, c := range closureCalls[x.Parent()] {
+						for i, q := range x.Parent().Params {
+							if q == x && i < len(c.Call.Args) {
+								if s := staleness(unboxed(c.Call.Args[i]), depth+1); s != "" {
+									stale = s
 								}
 							}
 						}
 					}
+					return stale
 				}
-				r.check(stale == "", "C17.current-form", m.EVAL, "position carrier of an error raised in the loop", c.Pos(), "computed in the current iteration", "the error is positioned at "+stale+": after tail calls that is the caller's form, so the reported line lies in another top-level form")
+				stale = "the form EVAL was entered with"
+			case ssa.Instruction:
+				if x.Block() != nil && x.Parent() == m.EVAL && !m.header.Dominates(x.Block()) {
+					stale = "a value computed before the loop (" + describeVal(e, carrier, 0) + ")"
+				}
+				if ld, ok := carrier.(*ssa.UnOp); ok && ld.Op == token.MUL {
+					// a variable: every assignment must happen inside the loop
+					if cell := cellOf(ld.X); cell != nil {
+						for _, st := range e.storesTo(cell) {
+							if st.Parent() == m.EVAL && !m.header.Dominates(st.Block()) {
+								if p, isP := st.Val.(*ssa.Parameter); isP && p == m.astParam {
+									continue // the form variable itself is loop-carried
+								}
+								stale = "a variable assigned before the loop"
+							}
+						}
+					}
+				}
+			}
+			return stale
+		}
+		for _, site := range cfFns {
+			for _, b := range site.fn.Blocks {
+				if !site.inLoop(b) {
+					continue
+				}
+				for _, in := range b.Instrs {
+					c, ok := in.(*ssa.Call)
+					if !ok || c.Call.StaticCallee() == nil || c.Call.StaticCallee().Name() != "NewLispError" || len(c.Call.Args) != 2 {
+						continue
+					}
+					ncf++
+					if site.fn != m.EVAL {
+						ncf += len(closureCalls[site.fn]) - 1 // one positioned error per call of the literal
+					}
+					stale := staleness(unboxed(c.Call.Args[1]), 0)
+					r.check(stale == "", "C17.current-form", site.fn, "position carrier of an error raised in the loop", c.Pos(), "computed in the current iteration", "the error is positioned at "+stale+": after tail calls that is the caller's form, so the reported line lies in another top-level form")
+				}
 			}
 		}
 		r.floor("C17.current-form", "errors positioned inside the evaluation loop", ncf, 10)
@@ -1340,37 +1402,7 @@ func checkC17(w *World, r *Report) {
 		noGlobalWritesRule(w, r, "C17.read-stateless", "the reader", []*ssa.Function{w.Fn("", "READ"), w.Fn("", "READWithPreamble"), w.Fn("reader", "Read_str"), w.Fn("reader", "tokenize"), w.Fn("reader", "read_form")})
 		// positions are shared (tokens, forms, errors and the caller's cursor point to them): never written in place
 		r.rule("C17.position-immutable", "a Position is only written while it is still private to the activation that allocated it (a literal, new, or the result of Copy / a constructor): nothing writes through a *Position it was handed, so the cursor a caller passes to READ and the positions already attached to forms and errors never change")
-		npi := 0
-		for _, fn := range w.Funcs {
-			if isTestFunc(w, fn) || !runtimePkg(fnPkgPath(fn)) {
-				continue
-			}
-			for _, b := range fn.Blocks {
-				for _, in := range b.Instrs {
-					st, ok := in.(*ssa.Store)
-					if !ok {
-						continue
-					}
-					fa, ok := st.Addr.(*ssa.FieldAddr)
-					if !ok {
-						continue
-					}
-					if _, name, ok := w.namedStruct(derefType(fa.X.Type())); !ok || name != "Position" {
-						continue
-					}
-					npi++
-					base := fa.X
-					for {
-						inner, ok := base.(*ssa.FieldAddr) // a Position embedded in a struct that is being built
-						if !ok {
-							break
-						}
-						base = inner.X
-					}
-					r.check(e.freshPtr(base, 1), "C17.position-immutable", fn, "write to Position."+fieldName(fa.X.Type(), fa.Field), st.Pos(), "the Position was allocated in this activation", "a Position that came from outside ("+describeVal(e, fa.X, 0)+") is written in place: every holder of that position (the caller's cursor, tokens, forms, errors) sees the change")
-				}
-			}
-		}
+		npi := positionWrites(w, r, e, "C17.position-immutable", func(fn *ssa.Function) bool { return runtimePkg(fnPkgPath(fn)) })
 		r.floor("C17.position-immutable", "writes to Position fields", npi, 5)
 		// forms keep the positions the reader gave them
 		r.rule("C17.forms-keep-positions", "outside the reader and the L-notation constructors nothing assigns the Cursor of a form (List, Vector, HashMap, Set, Symbol): the evaluator and the builtins hand forms on with the position they were read at (an operand handed back by a macro keeps its own position)")
@@ -1870,6 +1902,9 @@ func checkC20(w *World, r *Report) {
 	recoverDirectRule(w, r, "C20.recover-direct")
 	r.rule("C20.error-result", "the error a bound function returns is the error the caller gets: NewLispError, which positions it at the call form, returns the very object it was given (a LispError as is, anything else stored whole), never something dug out of its chain (shared with C03.object)")
 	newLispErrorRule(w, r, "C20.error-result")
+	// "a panic inside it becomes a catchable error that still wraps the original": the chain is walked through
+	// LispError.Unwrap, one link at a time
+	unwrapRule(w, r, nil, e, "C20.error-result")
 	constFormatRule(w, r, "C20.const-format")
 	argsCtx, args := w.Fn("lib/call", "_args_ctx"), w.Fn("lib/call", "_args")
 	nilnil, nilerr, reserr := w.Fn("lib/call", "_nil_nil"), w.Fn("lib/call", "_nil_error"), w.Fn("lib/call", "_result_error")
@@ -2324,8 +2359,8 @@ func checkC20(w *World, r *Report) {
 				continue
 			}
 			ret, ok := b.Instrs[len(b.Instrs)-1].(*ssa.Return)
-			if !ok || len(ret.Results) == 0 || isNilConst(ret.Results[0]) {
-				continue
+			if !ok || len(ret.Results) == 0 {
+				continue // (a nil slice is an argument vector too: the function is invoked without arguments)
 			}
 			up, lo := false, false
 			for _, f := range e.holding(b).list() {
@@ -2889,7 +2924,37 @@ func checkC20(w *World, r *Report) {
 		// name in one way, whether or not the function is registered under an explicit name
 		r.rule("C20.package-key", "the key under which the registry (_PACKAGES_) files a registered function is assigned independently of the override name: no assignment to it is made under a test of the override parameter (functions registered with and without an explicit name land under the same package)")
 		npk := 0
-		for _, cl := range allAnon(callFn) {
+		// the variables of the registration routine a key comes from (through parameters of helpers)
+		var keyCells func(v ssa.Value, depth int) []*ssa.Alloc
+		keyCells = func(v ssa.Value, depth int) []*ssa.Alloc {
+			if depth > 3 {
+				return nil
+			}
+			switch x := v.(type) {
+			case *ssa.UnOp:
+				if cell := cellOf(x.X); cell != nil {
+					return []*ssa.Alloc{cell}
+				}
+			case *ssa.Parameter:
+				var out []*ssa.Alloc
+				for _, a := range w.callSiteArgs(x) {
+					out = append(out, keyCells(a, depth+1)...)
+				}
+				return out
+			}
+			return nil
+		}
+		var pkFns []*ssa.Function
+		seenPk := map[*ssa.Function]bool{}
+		for _, f := range w.withPkgHelpers(callFn) {
+			for _, g := range append([]*ssa.Function{f}, allAnon(f)...) {
+				if !seenPk[g] {
+					seenPk[g] = true
+					pkFns = append(pkFns, g)
+				}
+			}
+		}
+		for _, cl := range pkFns {
 			for _, b := range cl.Blocks {
 				for _, in := range b.Instrs {
 					mu, ok := in.(*ssa.MapUpdate)
@@ -2899,23 +2964,17 @@ func checkC20(w *World, r *Report) {
 					if _, name, ok := w.namedStruct(unboxed(mu.Value).Type()); !ok || name != "Set" {
 						continue
 					}
-					ld, ok := mu.Key.(*ssa.UnOp)
-					if !ok {
-						continue
-					}
-					cell := cellOf(ld.X)
-					if cell == nil {
-						continue
-					}
-					for _, st := range e.storesTo(cell) {
-						npk++
-						dep := ""
-						for _, a := range knownConds(st.Block()) {
-							if bo, ok := a.v.(*ssa.BinOp); ok && (isOverrideParam(bo.X, 0) || isOverrideParam(bo.Y, 0)) {
-								dep = describeVal(e, bo, 0)
+					for _, cell := range keyCells(mu.Key, 0) {
+						for _, st := range e.storesTo(cell) {
+							npk++
+							dep := ""
+							for _, a := range knownConds(st.Block()) {
+								if bo, ok := a.v.(*ssa.BinOp); ok && (isOverrideParam(bo.X, 0) || isOverrideParam(bo.Y, 0)) {
+									dep = describeVal(e, bo, 0)
+								}
 							}
+							r.check(dep == "", "C20.package-key", st.Parent(), "assignment to the registry's package key", st.Pos(), "made whatever the override name is", "the package key is assigned under the condition "+dep+": a function registered under an explicit name is filed under a different package than the same function registered by its own name")
 						}
-						r.check(dep == "", "C20.package-key", st.Parent(), "assignment to the registry's package key", st.Pos(), "made whatever the override name is", "the package key is assigned under the condition "+dep+": a function registered under an explicit name is filed under a different package than the same function registered by its own name")
 					}
 				}
 			}
@@ -3803,6 +3862,28 @@ func isPeekResult(w *World, v ssa.Value, seen map[ssa.Value]bool) bool {
 			}
 		}
 		return len(x.Edges) > 0
+	case *ssa.Extract:
+		// a result of a helper of the reader that hands back the token it peeked
+		hc, ok := x.Tuple.(*ssa.Call)
+		if !ok || hc.Call.StaticCallee() == nil || !inModule(hc.Call.StaticCallee()) || len(hc.Call.StaticCallee().Blocks) == 0 {
+			return false
+		}
+		n := 0
+		for _, b := range hc.Call.StaticCallee().Blocks {
+			ret, ok := b.Instrs[len(b.Instrs)-1].(*ssa.Return)
+			if !ok || x.Index >= len(ret.Results) {
+				continue
+			}
+			rv := resolveRet(ret.Results[x.Index])
+			if isNilConst(rv) {
+				continue
+			}
+			if !isPeekResult(w, rv, seen) {
+				return false
+			}
+			n++
+		}
+		return n > 0
 	}
 	return false
 }
@@ -4957,7 +5038,46 @@ func countArithRule(w *World, r *Report, e *Engine, rule string) {
 			seen[v] = true
 			switch x := v.(type) {
 			case *ssa.Parameter:
-				return isIntType(x.Type())
+				if !isIntType(x.Type()) {
+					return false
+				}
+				// a parameter of a helper: what its callers pass
+				if fn := x.Parent(); fn != nil && fn.Parent() == nil && fn.Object() != nil && !fn.Object().Exported() && !w.isRegistered(fn) {
+					for _, a := range w.callSiteArgs(x) {
+						if walk(a, depth+1) {
+							return true
+						}
+					}
+					return false
+				}
+				return true
+			case *ssa.Call:
+				// the result of a helper that hands back (a clamped form of) a count it was given
+				if callee := x.Call.StaticCallee(); callee != nil && inModule(callee) && len(callee.Blocks) > 0 && isIntType(x.Type()) {
+					for _, cb := range callee.Blocks {
+						if ret, ok := cb.Instrs[len(cb.Instrs)-1].(*ssa.Return); ok && len(ret.Results) == 1 {
+							if p, isP := ret.Results[0].(*ssa.Parameter); isP {
+								for i, q := range callee.Params {
+									if q == p && i < len(x.Call.Args) && walk(x.Call.Args[i], depth+1) {
+										return true
+									}
+								}
+							}
+							if phi, isPhi := ret.Results[0].(*ssa.Phi); isPhi {
+								for _, ed := range phi.Edges {
+									if p, isP := ed.(*ssa.Parameter); isP {
+										for i, q := range callee.Params {
+											if q == p && i < len(x.Call.Args) && walk(x.Call.Args[i], depth+1) {
+												return true
+											}
+										}
+									}
+								}
+							}
+						}
+					}
+				}
+				return false
 			case *ssa.TypeAssert:
 				return isIntType(x.AssertedType)
 			case *ssa.Extract:
@@ -4977,6 +5097,24 @@ func countArithRule(w *World, r *Report, e *Engine, rule string) {
 		}
 		return walk(v, 0)
 	}
+	// a length: len(x), or a parameter of a helper that is handed a length at every call
+	var lengthLike func(v ssa.Value, depth int) bool
+	lengthLike = func(v ssa.Value, depth int) bool {
+		if t, _, ok := e.linOf(v); ok && t.Kind == 1 {
+			return true
+		}
+		p, ok := v.(*ssa.Parameter)
+		if !ok || depth > 3 || p.Parent() == nil || p.Parent().Object() == nil || p.Parent().Object().Exported() || w.isRegistered(p.Parent()) {
+			return false
+		}
+		args := w.callSiteArgs(p)
+		for _, a := range args {
+			if !lengthLike(a, depth+1) {
+				return false
+			}
+		}
+		return len(args) > 0
+	}
 	seenF := map[*ssa.Function]bool{}
 	n := 0
 	for _, root := range w.registeredFuncs() {
@@ -4994,7 +5132,7 @@ func countArithRule(w *World, r *Report, e *Engine, rule string) {
 					if !ok || bo.Op != token.SUB || !isIntType(bo.Type()) {
 						continue
 					}
-					if t, _, ok := e.linOf(bo.X); !ok || t.Kind != 1 {
+					if !lengthLike(bo.X, 0) {
 						continue // not a length
 					}
 					if !fromProgram(bo.Y) {
@@ -5070,4 +5208,102 @@ func lnotationTotalRule(w *World, r *Report, rule string) {
 		}
 	}
 	r.floor(rule, "loops of package lnotation", n, 3)
+}
+
+// positionWrites: every store into a field of a Position, in the functions selected, goes to a Position
+// allocated in the same activation. Returns the number of such stores.
+func positionWrites(w *World, r *Report, e *Engine, rule string, in func(*ssa.Function) bool) int {
+	npi := 0
+	for _, fn := range w.Funcs {
+		if isTestFunc(w, fn) || !in(fn) {
+			continue
+		}
+		for _, b := range fn.Blocks {
+			for _, in := range b.Instrs {
+				st, ok := in.(*ssa.Store)
+				if !ok {
+					continue
+				}
+				fa, ok := st.Addr.(*ssa.FieldAddr)
+				if !ok {
+					continue
+				}
+				if _, name, ok := w.namedStruct(derefType(fa.X.Type())); !ok || name != "Position" {
+					continue
+				}
+				npi++
+				base := fa.X
+				for {
+					inner, ok := base.(*ssa.FieldAddr) // a Position embedded in a struct that is being built
+					if !ok {
+						break
+					}
+					base = inner.X
+				}
+				r.check(e.freshPtr(base, 1), rule, fn, "write to Position."+fieldName(fa.X.Type(), fa.Field), st.Pos(), "the Position was allocated in this activation", "a Position that came from outside ("+describeVal(e, fa.X, 0)+") is written in place: every holder of that position (the caller's cursor, tokens, forms, errors) sees the change")
+			}
+		}
+	}
+	return npi
+}
+
+// moduleAsGivenRule: a position names the module the program was read under - the name the caller gave,
+// character for character. The cursor constructors of package types that take a module name store the
+// address of their own name parameter, which nothing else is assigned to: the name is not cleaned,
+// shortened, resolved or re-cased on the way into the position.
+func moduleAsGivenRule(w *World, r *Report, e *Engine, rule string) {
+	n := 0
+	for _, fn := range w.pkgFuncs("types") {
+		if fn.Parent() != nil || fn.Signature.Recv() != nil || len(fn.Blocks) == 0 {
+			continue
+		}
+		res := fn.Signature.Results()
+		if res.Len() != 1 {
+			continue
+		}
+		if _, name, ok := w.namedStruct(res.At(0).Type()); !ok || name != "Position" {
+			continue
+		}
+		var nameParam *ssa.Parameter
+		for _, p := range fn.Params {
+			if isBasic(p.Type(), types.String) {
+				nameParam = p
+			}
+		}
+		if nameParam == nil {
+			continue
+		}
+		for _, b := range fn.Blocks {
+			for _, in := range b.Instrs {
+				st, ok := in.(*ssa.Store)
+				if !ok {
+					continue
+				}
+				fa, ok := st.Addr.(*ssa.FieldAddr)
+				if !ok || fieldName(fa.X.Type(), fa.Field) != "Module" {
+					continue
+				}
+				if _, name, ok := w.namedStruct(fa.X.Type()); !ok || name != "Position" {
+					continue
+				}
+				n++
+				okName := false
+				if cell, isCell := st.Val.(*ssa.Alloc); isCell {
+					stores := 0
+					onlyParam := true
+					for _, ref := range *cell.Referrers() {
+						if s2, ok := ref.(*ssa.Store); ok && s2.Addr == ssa.Value(cell) {
+							stores++
+							if s2.Val != ssa.Value(nameParam) {
+								onlyParam = false
+							}
+						}
+					}
+					okName = stores >= 1 && onlyParam
+				}
+				r.check(okName, rule, fn, "module name stored in the position", st.Pos(), "the name parameter as given", "the module name is rewritten before it is stored ("+describeVal(e, st.Val, 0)+"): positions - and so every run-time error - name a module other than the one the program was read under")
+			}
+		}
+	}
+	r.floor(rule, "cursor constructors that take a module name", n, 2)
 }
